@@ -183,7 +183,7 @@ pub fn run_feed_history(rng: &mut Rng, h: &mut History, r: &mut Report, steps: u
             }
             _ => {
                 let (b, s) = *rng.pick(&[(1u64, 0u64), (1, 1), (1, 30), (10, 600), (50, 3600), (1000, 86400), (1, 900)]);
-                h.step(Op::Advance { blocks: b, secs: s }, r);
+                h.step(Op::Advance { blocks: b, secs: s, nanos: 0 }, r);
             }
         }
     }
